@@ -27,7 +27,7 @@ NewClient(lg, v111, http) ==
 InitO(tr) ==
     [tr |-> tr, conns |-> <<>>, ann |-> <<>>, norm |-> <<>>, keyn |-> <<>>,
      mqsubs |-> {}, mqpend |-> <<>>, handed |-> <<>>, window |-> {},
-     refetch |-> <<>>, ctrig |-> <<>>, resets |-> <<>>, thr |-> <<>>, stop |-> [l |-> 0, cause |-> "", open |-> {}], down |-> FALSE, hadStop |-> FALSE, final |-> FALSE, resetObl |-> {}, keyq |-> <<>>]
+     refetch |-> <<>>, ctrig |-> <<>>, resets |-> <<>>, thr |-> <<>>, stop |-> [l |-> 0, cause |-> "", open |-> {}], down |-> FALSE, hadStop |-> FALSE, final |-> FALSE, resetObl |-> {}, keyq |-> <<>>, qev |-> <<>>]
 
 V(p, why, kf) == [p |-> p, tr |-> o.tr, l |-> l, why |-> why, kf |-> kf]
 
@@ -264,7 +264,13 @@ H_cev(r) ==
                   ELSE {V("C02", r.ev \o " event for " \o r.rid \o " which the client does not hold", kfU)}
         res1 == SetRes(r.set) @@ cl1.res
         cur == Get(cl1.res, r.rid, ErrRes("none"))
-        seqV == SeqViol(cl1, r) \cup RecheckViol(cl1, r)
+        qlockV == IF r.seq = 0 THEN {}
+                  ELSE LET n == NameOf(cl1, r.rid)
+                           hs == {h \in SeqToSet(HandedOf(n)) : h.seq = r.seq}
+                       IN IF \E sj \in DOMAIN o.qev : o.qev[sj].n = n /\ o.qev[sj].open # {} /\ \E h \in hs : h.l > o.qev[sj].l
+                          THEN {V("C13", "event seq " \o ToString(r.seq) \o " on " \o r.rid \o " delivered while query requests of an earlier query event are unanswered", "")}
+                          ELSE {}
+        seqV == SeqViol(cl1, r) \cup RecheckViol(cl1, r) \cup qlockV
         cl1s == SeqUpdate(cl1, r)
     IN
     CASE r.ev = "change" ->
@@ -396,6 +402,11 @@ H_munsub(r) ==
          [] OTHER -> Res(o1, {})
 
 -----------------------------------------------------------------------------
+(* C13: per query event (identified by its subject) the cached normalised queries of the resource at hand-over *)
+QSubscribed(k) == \E c \in DOMAIN o.conns : o.conns[c].alive /\
+                     \E rid \in Held(o.conns[c].direct, o.conns[c].res) : Get(o.norm, KeyOf(o.conns[c], rid), KeyOf(o.conns[c], rid)) = k
+QCached(n) == {k \in DOMAIN o.ann : Get(o.keyn, k, "") = n /\ Get(o.keyq, k, "") # "" /\ o.ann[k].st = "ld"}
+
 ConnBound(t) == t \in {"access", "call", "auth"}
 
 H_mreq(r) ==
@@ -439,7 +450,14 @@ H_mreq(r) ==
                    IN SetConn(o1, r.c, [cl EXCEPT !.recheck = rc2, !.lastAcc = Put(@, r.key, [l |-> l, rechk |-> rechk]),
                                                   !.dispCalled = IF cl.gone THEN @ \ {r.key} ELSE @])
               ELSE o1
-    IN Res(o2, badV \cup cidV \cup goneV \cup tokV \cup subV \cup callV \cup tidV)
+        isQ == r.t = "query" /\ r.subj \in DOMAIN o.qev
+        qe == IF isQ THEN o.qev[r.subj] ELSE [n |-> "", l |-> 0, loaded |-> {}, must |-> {}, got |-> {}, open |-> {}]
+        qV == IF ~isQ THEN {}
+              ELSE (IF r.key \in qe.got THEN {V("C13", "second query request for " \o r.key \o " on one query event", "")} ELSE {})
+                   \cup (IF r.key \notin qe.loaded /\ r.key \notin QCached(qe.n)
+                         THEN {V("C13", "query request for " \o r.key \o " which is not a cached query of the resource", "")} ELSE {})
+        o3 == IF isQ THEN [o2 EXCEPT !.qev = Put(o2.qev, r.subj, [qe EXCEPT !.got = @ \cup {r.key}, !.open = @ \cup {r.k}])] ELSE o2
+    IN Res(o3, badV \cup cidV \cup goneV \cup tokV \cup subV \cup callV \cup tidV \cup qV)
 
 -----------------------------------------------------------------------------
 Content(r) == IF r.kind = "m" THEN Model(r.val) ELSE Coll(r.list)
@@ -473,7 +491,8 @@ H_mres(r) ==
                                 !.keyq = Put(o.keyq, r.nkey, r.nq),
                                 !.window = IF req.refetch THEN @ \ {r.nkey} ELSE @], {})
          [] r.t = "query" ->
-              Res([o1 EXCEPT !.ann = Put(o.ann, r.key, AnnQuery(AnnOf(o.ann, r.key), r))], {})
+              Res([o1 EXCEPT !.ann = Put(o.ann, r.key, AnnQuery(AnnOf(o.ann, r.key), r)),
+                             !.qev = [sj \in DOMAIN o.qev |-> [o.qev[sj] EXCEPT !.open = @ \ {r.k}]]], {})
          [] r.t = "access" /\ r.c \in DOMAIN o.conns ->
               LET cl == o.conns[r.c]
                   ok == r.kind = "access"
@@ -492,6 +511,9 @@ H_mres(r) ==
 -----------------------------------------------------------------------------
 H_mevt(r) ==
     CASE r.bad -> Res(o, {})   \* a malformed / inapplicable message announces nothing (C15: discarded as a whole)
+      [] r.ns = "event" /\ r.ev = "query" ->
+            Res([o EXCEPT !.qev = Put(o.qev, r.subject, [n |-> r.n, l |-> l, loaded |-> QCached(r.n),
+                                                         must |-> {k \in QCached(r.n) : QSubscribed(k)}, got |-> {}, open |-> {}])], {})
       [] r.ns = "event" ->
             LET a == AnnOf(o.ann, r.n)
                 a2 == IF a.st # "ld" THEN a
@@ -621,9 +643,11 @@ H_quiescent(r) ==
     ELSE
     LET live == {c \in DOMAIN o.conns : o.conns[c].alive /\ c \in SeqToSet(r.conns)}
         o1 == [o EXCEPT !.conns = [c \in DOMAIN o.conns |-> [o.conns[c] EXCEPT !.rn = (IF c \in DOMAIN r.rn THEN r.rn[c] ELSE <<>>) @@ @]]]
-    IN Res([o1 EXCEPT !.resetObl = {}],
+    IN Res([o1 EXCEPT !.resetObl = {}, !.qev = <<>>],
            UNION {C01Viol(c, r) \cup C07Viol(c) \cup C08Viol(c, r) \cup C03EndViol(c) \cup C06EndViol(c, r) \cup C06TokViol(c, r) : c \in live}
            \cup C09QViol(r) \cup C11Viol(r) \cup C19QViol
+           \cup UNION {{V("C13", "no query request for cached query " \o k \o " on query event " \o sj, "")
+                        : k \in {x \in o.qev[sj].must \ o.qev[sj].got : QSubscribed(x) /\ AnnOf(o.ann, x).st = "ld"}} : sj \in DOMAIN o.qev}
            \cup {V("C12", "cached resource " \o x.key \o " matched a system reset but was never re-fetched", "") : x \in o.resetObl})
 
 H_final(r) ==
